@@ -11,6 +11,7 @@ import (
 	"strings"
 	"time"
 
+	"github.com/nsqio/nsq/internal/verif/vrt"
 	"github.com/nsqio/nsq/internal/verif/vx"
 	"github.com/nsqio/nsq/nsqd"
 )
@@ -83,7 +84,38 @@ func main() {
 	mode := flag.String("mode", "dpor", "debug: dpor|sleep|brute")
 	histCfg := flag.String("hist", "", "debug: run one history; JSON HistCfg")
 	events := flag.String("events", "", "debug: comma separated events for -hist")
+	metaSteps := flag.String("meta", "", "debug: run one metadata script (comma separated steps)")
 	flag.Parse()
+	if *metaSteps != "" {
+		spec := nsqd.MetaSpec{Steps: strings.Split(*metaSteps, ",")}
+		body := func() vx.Out { return nsqd.RunMetaScript(spec) }
+		o, f, pts := vx.RunSchedule(body, nil, 0)
+		vrt.MarkShared(pts)
+		fmt.Println("obs", o.Obs, "fail", f, "points", len(pts))
+		for i, p := range pts {
+			if p.NAlts > 1 {
+				fmt.Printf("  %3d t%d %-12s alts=%d shared=%v\n", i, p.Tid, p.Name, p.NAlts, p.Shared)
+			}
+		}
+		for _, ev := range nsqd.LastMeta.Events {
+			fmt.Printf("  ev %-6s %-10s %-30s step%d snaps=%v\n", ev.Kind, ev.Eff.Op, ev.Eff.Path[strings.LastIndex(ev.Eff.Path, "/")+1:], ev.Step, ev.Snaps)
+		}
+		jd := nsqd.JudgeMeta(nsqd.LastMeta)
+		fmt.Println("images", jd.Images, "viol", jd.Viol)
+		for alt := 1; alt <= 2; alt++ {
+			sched := make([]int, 72)
+			sched[71] = alt
+			o, f, pts := vx.RunSchedule(body, sched, 0)
+			fmt.Println("deviate at 71 alt", alt, "obs", o.Obs, "fail", f, "points", len(pts))
+			for i := 68; i < len(pts) && i < 100; i++ {
+				fmt.Printf("  %3d t%d %-12s alts=%d chosen=%d\n", i, pts[i].Tid, pts[i].Name, pts[i].NAlts, pts[i].Chosen)
+			}
+			jd := nsqd.JudgeMeta(nsqd.LastMeta)
+			fmt.Println("images", jd.Images, "viol", jd.Viol)
+		}
+		os.RemoveAll(nsqd.VerifBase)
+		return
+	}
 	if *histCfg != "" {
 		var cfg nsqd.HistCfg
 		if err := json.Unmarshal([]byte(*histCfg), &cfg); err != nil {
